@@ -101,3 +101,20 @@ Definition agree_text (t : tcase) : bool :=
       | _ => match tk_lines t with [] => true | _ => false end
       end
   end.
+
+(* ---- the sample time `dump --flame-graph` picks itself (cmds/dump.c command_dump) when the data has a record date:
+   from 1 us upwards in powers of ten until a million samples cover the elapsed time, at most 1 s.
+   [total] = (uint64_t)(strtod(elapsed_time) * 1e9) ---- *)
+Fixpoint auto_sample_loop (fuel : nat) (s total : N) : N :=
+  match fuel with
+  | O => s
+  | S f => if (s * 1000000 <? total) && negb (s =? 1000000000) then auto_sample_loop f (s * 10) total else s
+  end.
+Definition auto_sample (total : N) : N := auto_sample_loop 7 1000 total.
+
+Record acase := { ak_case : case; ak_total : N; ak_lines : list (list N) }.
+Definition agree_flameA (a : acase) : bool :=
+  let k := ak_case a in let s := auto_sample (ak_total a) in
+  lines_eqb (map flame_text_full (flame_lines s (graph_build s [] (k_tids k) (k_stream k)))) (ak_lines a).
+Definition okc_flameA (a : acase) : bool :=
+  let k := ak_case a in ok_flame (auto_sample (ak_total a)) (k_tids k) (k_stream k) (ak_lines a).
